@@ -14,7 +14,10 @@ From Gnmi Require Import Base.Prelude Base.Lts CTree.CTreeModel Path.PathModel P
   Match.MatchModel Match.MatchProofs
   Coalesce.QueueModel Coalesce.QueueLts Coalesce.QueueProofs.
 From Gnmi Require Subscribe.SubModel Pipeline.PipelineModel Stream.StreamLts Cache.CacheModel.
-From Gnmi Require Import Glue.GluePath Glue.GlueMatch Glue.GlueQueue.
+From Gnmi Require Import Value.ValueModel Cache.CacheModel.
+From Gnmi Require Stream.StreamProofs.
+From Gnmi Require Import Glue.GluePath Glue.GlueMatch Glue.GlueQueue Glue.GlueTree Glue.GlueCacheSub
+  Glue.GlueCacheStream Glue.GlueCachePipe.
 Open Scope string_scope.
 Open Scope list_scope.
 
@@ -266,8 +269,6 @@ Print Assumptions Glue_cache_join_path_eq.
 
 (** * 4. The cache (authoritative: Cache/CacheModel.v, C02/C03/C14/C15) *)
 
-From Gnmi Require Import Glue.GlueTree Glue.GlueCacheSub.
-From Gnmi Require Import Value.ValueModel Cache.CacheModel.
 
 (** ** SubModel's cache-as-content (C05, C07)
 
@@ -364,3 +365,256 @@ Theorem Glue_sub_notif_eqb_agree :
   forall a b, noti_wf a -> noti_wf b -> notif_eqb (sub_notif a) (sub_notif b) = SubModel.noti_eqb a b.
 Proof. exact notif_eqb_agree. Qed.
 Print Assumptions Glue_sub_notif_eqb_agree.
+
+(** ** StreamLts's abstract cache (C04, C08)
+
+    Abstraction [Rs st name tr]: the ctree [tr] holds at index path [p] the
+    canonical notification [s_noti name p (v, ts)] exactly where StreamLts
+    holds [(v, ts)] at [name :: p].  [StreamProofs.GInv] holds in every
+    reachable state of the transition system.  Domain: non-empty target name,
+    index path not empty and not under "meta". *)
+
+(** [write .. (WUpd ..)] against Target.gnmiUpdate with the event-driven switch
+    as a parameter ([gen_update1]; [gen_update1 true] is SubModel's function). *)
+Theorem Glue_stream_write_upd_sim :
+  forall h st w name k rest v ts st' res tr,
+    StreamProofs.GInv st -> Rs st name tr ->
+    name <> ""%string -> k <> "meta"%string ->
+    StreamLts.write h st w (StreamLts.WUpd (name :: k :: rest) v ts) = Some (st', res) ->
+    match gen_update1 (StreamLts.h_ed h) tr (s_noti name (k :: rest) (v, ts)) with
+    | SubModel.URes tr' feed err =>
+        Rs st' name tr' /\
+        (forall name' tr0, name' <> name -> Rs st name' tr0 -> Rs st' name' tr0) /\
+        match res with
+        | StreamLts.WOk =>
+            err = false /\
+            exists f, StreamLts.st_feeds st' = StreamLts.set_feed st w f /\
+                      map (item_noti st') f = map Some feed
+        | _ => err = true /\ feed = [] /\ st' = st
+        end
+    | _ => False
+    end.
+Proof. exact stream_write_upd_sim. Qed.
+Print Assumptions Glue_stream_write_upd_sim.
+
+Theorem Glue_gen_update1_true :
+  forall tr n, gen_update1 true tr n = SubModel.gnmi_update1 tr n.
+Proof. exact gen_update1_true. Qed.
+Print Assumptions Glue_gen_update1_true.
+
+(** ... and against CacheModel.gnmi_update1, for both settings of the switch. *)
+Theorem Glue_stream_write_upd_cache :
+  forall h st w name k rest v ts st' res tr t now,
+    StreamProofs.GInv st -> Rs st name tr -> tsim_ed (StreamLts.h_ed h) tr t ->
+    name <> ""%string -> k <> "meta"%string ->
+    StreamLts.write h st w (StreamLts.WUpd (name :: k :: rest) v ts) = Some (st', res) ->
+    let n := s_noti name (k :: rest) (v, ts) in
+    let r := gnmi_update1 t now (sub_notif n) in
+    exists tr',
+      Rs st' name tr' /\ tsim_ed (StreamLts.h_ed h) tr' (fst r) /\
+      (forall name' tr0, name' <> name -> Rs st name' tr0 -> Rs st' name' tr0) /\
+      match res with
+      | StreamLts.WOk =>
+          exists f feed, StreamLts.st_feeds st' = StreamLts.set_feed st w f /\
+                         map (item_noti st') f = map Some feed /\
+                         match snd r with
+                         | Ok (Some nd) => feed = [n] /\ nd = sub_notif n
+                         | Ok None => feed = []
+                         | _ => False
+                         end
+      | _ => st' = st /\ exists e, snd r = Err e
+      end.
+Proof. exact stream_write_upd_cache. Qed.
+Print Assumptions Glue_stream_write_upd_cache.
+
+(** [write .. (WDel ..)] against Target.gnmiRemove (SubModel's, then CacheModel's). *)
+Theorem Glue_stream_write_del_sim :
+  forall h st w name d ts order st' res tr,
+    StreamProofs.GInv st -> Rs st name tr -> name <> ""%string ->
+    match d with k :: _ => k <> "meta"%string | [] => True end ->
+    StreamLts.write h st w (StreamLts.WDel (name :: d) ts order) = Some (st', res) ->
+    match SubModel.gnmi_remove1 tr (s_del name d ts) with
+    | SubModel.URes tr' feed err =>
+        res = StreamLts.WOk /\ err = false /\ Rs st' name tr' /\
+        (forall name' tr0, name' <> name -> Rs st name' tr0 -> Rs st' name' tr0) /\
+        exists nd,
+          StreamLts.st_dels st' = StreamLts.st_dels st ++ nd /\
+          StreamLts.st_feeds st' =
+            StreamLts.set_feed st w (map StreamLts.IDel (seq (List.length (StreamLts.st_dels st)) (List.length nd))) /\
+          (forall dn, In dn feed <-> exists q, In (name :: q, ts) nd /\ dn = del_noti name q ts)
+    | _ => False
+    end.
+Proof. exact stream_write_del_sim. Qed.
+Print Assumptions Glue_stream_write_del_sim.
+
+Theorem Glue_stream_write_del_cache :
+  forall h st w name d ts order st' res tr ed t,
+    StreamProofs.GInv st -> Rs st name tr -> tsim_ed ed tr t -> name <> ""%string ->
+    match d with k :: _ => k <> "meta"%string | [] => True end ->
+    StreamLts.write h st w (StreamLts.WDel (name :: d) ts order) = Some (st', res) ->
+    let r := gnmi_remove t (sub_notif (s_del name d ts)) in
+    exists tr' removed nd,
+      res = StreamLts.WOk /\ Rs st' name tr' /\ tsim_ed ed tr' (fst r) /\ snd r = Ok removed /\
+      (forall name' tr0, name' <> name -> Rs st name' tr0 -> Rs st' name' tr0) /\
+      StreamLts.st_dels st' = StreamLts.st_dels st ++ nd /\
+      StreamLts.st_feeds st' =
+        StreamLts.set_feed st w (map StreamLts.IDel (seq (List.length (StreamLts.st_dels st)) (List.length nd))) /\
+      (forall x, In x (render_deletes removed ts) <->
+                 exists q, In (name :: q, ts) nd /\ x = sub_notif (del_noti name q ts)).
+Proof. exact stream_write_del_cache. Qed.
+Print Assumptions Glue_stream_write_del_cache.
+
+(** [write .. (WDelSub ..)] against ctree.Delete (one root child of Target.Reset). *)
+Theorem Glue_stream_write_delsub_sim :
+  forall h st w name d st' res tr,
+    StreamProofs.GInv st -> Rs st name tr ->
+    StreamLts.write h st w (StreamLts.WDelSub (name :: d)) = Some (st', res) ->
+    res = StreamLts.WOk /\
+    Rs st' name (fst (CTreeModel.delete tr d)) /\
+    (forall name' tr0, name' <> name -> Rs st name' tr0 -> Rs st' name' tr0) /\
+    StreamLts.st_dels st' = StreamLts.st_dels st ++ [((name :: d) ++ [StreamLts.star], 0%Z)] /\
+    StreamLts.st_feeds st' = StreamLts.set_feed st w [StreamLts.IDel (List.length (StreamLts.st_dels st))].
+Proof. exact stream_write_delsub_sim. Qed.
+Print Assumptions Glue_stream_write_delsub_sim.
+
+(** Where they differ: StreamLts attaches a leaf at the bare target path; the
+    cache (CacheModel, SubModel, the Go code since 30e1165) rejects the empty
+    index path. *)
+Theorem Glue_stream_bare_target_differ :
+  let h := StreamLts.mkHyps false true in
+  let st0 := StreamLts.init 1 [] in
+  (exists st', StreamLts.write h st0 0%nat (StreamLts.WUpd ["dev"] 7%Z 1%Z) = Some (st', StreamLts.WOk) /\
+               StreamLts.cache_at st' ["dev"] = Some (7%Z, 1%Z)) /\
+  SubModel.gnmi_update1 None (s_noti "dev" [] (7%Z, 1%Z)) = SubModel.URes None [] true /\
+  snd (target_gnmi_update (new_target "dev" (Cfg 0%Z true [])) 0%Z (sub_notif (s_noti "dev" [] (7%Z, 1%Z))))
+  = GErr err_invalid_path.
+Proof. exact stream_bare_target_differ. Qed.
+Print Assumptions Glue_stream_bare_target_differ.
+
+(** ** PipelineModel's cache stage (C01)
+
+    Abstraction [Rp emb okv w t]: CacheModel's tree holds [rec_notif r]
+    exactly where the pipeline's tree holds a leaf id whose heap record is
+    [r]; ids are unique per leaf and below the allocation counter.  The value
+    embedding is a parameter: any [emb] that respects value.Equal and
+    proto.Equal on the class [okv] (instantiated by [scalar_emb]/[scalar_ok]:
+    strings, integers, booleans, bytes, JSON, ASCII, proto bytes). *)
+
+Theorem Glue_pipe_update_one_sim :
+  forall (emb : PipelineModel.tv -> ValueModel.tv) (okv : PipelineModel.tv -> Prop),
+    (forall a b, okv a -> okv b -> value_equal (Some (emb a)) (Some (emb b)) = PipelineModel.tv_equal a b) ->
+    (forall a b, okv a -> okv b -> CacheModel.tv_eqb (emb a) (emb b) = PipelineModel.tv_eqb a b) ->
+    forall w r t now,
+      PipelineModel.w_fault w = None -> Rp emb okv w t -> rec_wf okv r ->
+      let w' := PipelineModel.cache_update_one w r in
+      let R := gnmi_update1 t now (rec_notif emb r) in
+      match PipelineModel.w_fault w' with
+      | Some (PipelineModel.FPanic 1%N) => exists x, snd R = Panic x
+      | Some (PipelineModel.FPanic 2%N) => snd R = Err err_invalid_path
+      | Some (PipelineModel.FPanic _) => False
+      | Some (PipelineModel.FUnmodelled _) => True
+      | None =>
+          Rp emb okv w' (fst R) /\
+          match snd R with
+          | Ok (Some nd) =>
+              nd = rec_notif emb r /\
+              exists p g, join_prefix_and_path (pipe_gp (PipelineModel.lr_prefix r))
+                                               (pipe_gp (PipelineModel.lr_path r)) = Ok p /\
+                          id_at w' p = Some g /\ PipelineModel.hget (PipelineModel.w_heap w') g = Some r /\
+                          PipelineModel.w_sub w' =
+                            PipelineModel.feed_leaf (PipelineModel.w_sub w) g (PipelineModel.full_path r)
+          | Ok None => PipelineModel.w_sub w' = PipelineModel.w_sub w
+          | Err _ => w' = w
+          | Panic _ => False
+          end
+      end.
+Proof. exact pipe_update_one_sim. Qed.
+Print Assumptions Glue_pipe_update_one_sim.
+
+Theorem Glue_pipe_delete_one_sim :
+  forall (emb : PipelineModel.tv -> ValueModel.tv) (okv : PipelineModel.tv -> Prop) ts pre w d t,
+    PipelineModel.w_fault w = None -> Rp emb okv w t -> pipe_wf pre -> pipe_wf d ->
+    let w' := PipelineModel.cache_delete_one ts pre w d in
+    let R := gnmi_remove t (Notif ts (Some (pipe_gp pre)) None [] [pipe_gp d] false) in
+    match PipelineModel.w_fault w' with
+    | Some (PipelineModel.FPanic 1%N) => exists x, snd R = Panic x
+    | Some (PipelineModel.FPanic 2%N) => exists removed, snd R = Ok removed
+    | Some (PipelineModel.FPanic _) => False
+    | Some (PipelineModel.FUnmodelled _) => True
+    | None =>
+        Rp emb okv w' (fst R) /\
+        exists idx removedT,
+          join_prefix_and_path (pipe_gp pre) (pipe_gp d) = Ok idx /\ snd R = Ok removedT /\
+          let removedP := snd (delete_cond (PipelineModel.w_tree w) idx
+                                 (fun g => match PipelineModel.hget (PipelineModel.w_heap w) g with
+                                           | Some r => (PipelineModel.lr_ts r <? ts)%Z | None => false end)) in
+          Permutation (map (fun pg => view emb (PipelineModel.w_heap w) (snd pg)) removedP) (map Some removedT) /\
+          PipelineModel.w_sub w' =
+            fold_left (fun s pg => match PipelineModel.hget (PipelineModel.w_heap w) (snd pg) with
+                                   | Some old => PipelineModel.feed_del s (PipelineModel.to_delete old ts)
+                                   | None => s
+                                   end) removedP (PipelineModel.w_sub w)
+    end.
+Proof. exact pipe_delete_one_sim. Qed.
+Print Assumptions Glue_pipe_delete_one_sim.
+
+(** One whole stamped, non-atomic notification: the pipeline's two loops
+    against CacheModel's dispatch (empty / one update / one delete / several).
+    If the pipeline model ends without fault the states are related and the
+    cache did not panic; its "p[1:] of an empty slice" fault is a panic of the
+    cache as well. *)
+Theorem Glue_pipe_target_gnmi_update_sim :
+  forall (emb : PipelineModel.tv -> ValueModel.tv) (okv : PipelineModel.tv -> Prop),
+    (forall a b, okv a -> okv b -> value_equal (Some (emb a)) (Some (emb b)) = PipelineModel.tv_equal a b) ->
+    (forall a b, okv a -> okv b -> CacheModel.tv_eqb (emb a) (emb b) = PipelineModel.tv_eqb a b) ->
+    forall w n pre t now,
+      PipelineModel.w_fault w = None -> Rp emb okv w t -> notification_wf okv n pre ->
+      let w' := PipelineModel.target_gnmi_update w n pre in
+      let R := target_gnmi_update t now (pipe_notif emb n pre) in
+      match PipelineModel.w_fault w' with
+      | None => Rp emb okv w' (fst (fst R)) /\ (forall x, snd R <> GPanic x)
+      | Some (PipelineModel.FPanic 1%N) => exists x, snd R = GPanic x
+      | Some _ => True
+      end.
+Proof. exact pipe_target_gnmi_update_sim. Qed.
+Print Assumptions Glue_pipe_target_gnmi_update_sim.
+
+(** the delete notification the pipeline hands to its subscriber is the one
+    cache.toDeleteNotification builds *)
+Theorem Glue_pipe_to_delete_agree :
+  forall (emb : PipelineModel.tv -> ValueModel.tv) r ts,
+    del_notif (PipelineModel.to_delete r ts) = mk_delete (rec_notif emb r) ts (del_path (rec_notif emb r)).
+Proof. exact to_delete_agree. Qed.
+Print Assumptions Glue_pipe_to_delete_agree.
+
+(** the hypotheses on the embedding hold for the scalar class *)
+Theorem Glue_scalar_emb_respects :
+  (forall a b, scalar_ok a -> scalar_ok b ->
+     value_equal (Some (scalar_emb a)) (Some (scalar_emb b)) = PipelineModel.tv_equal a b) /\
+  (forall a b, scalar_ok a -> scalar_ok b ->
+     CacheModel.tv_eqb (scalar_emb a) (scalar_emb b) = PipelineModel.tv_eqb a b).
+Proof. exact (conj scalar_emb_equal scalar_emb_eqb). Qed.
+Print Assumptions Glue_scalar_emb_respects.
+
+(** ... and fail on doubles: proto.Equal identifies +0 and -0, PipelineModel
+    compares bit patterns; consequence for Target.gnmiUpdate at an equal
+    timestamp. *)
+Theorem Glue_pipe_zero_update_differ :
+  let r0 := ex_rec 5 (PipelineModel.TVDouble 0) in
+  let r1 := ex_rec 5 (PipelineModel.TVDouble (2 ^ 63)) in
+  let w2 := PipelineModel.cache_update_one (PipelineModel.cache_update_one ex_w0 r0) r1 in
+  let t1 := fst (gnmi_update1 (new_target "dev" (Cfg 0 true [])) 0 (rec_notif scalar_emb r0)) in
+  PipelineModel.hget (PipelineModel.w_heap w2) 0%nat = Some r1 /\ PipelineModel.w_fault w2 = None /\
+  snd (gnmi_update1 t1 0 (rec_notif scalar_emb r1)) = Err err_stale.
+Proof. exact pipe_zero_update_differ. Qed.
+Print Assumptions Glue_pipe_zero_update_differ.
+
+(** an empty index path: PipelineModel says panic, CacheModel (and the code
+    since 30e1165) "invalid path"; unreachable through [ingest]. *)
+Theorem Glue_pipe_empty_index_differ :
+  let r := {| PipelineModel.lr_ts := 1; PipelineModel.lr_prefix := ex_gp "dev" "" [];
+              PipelineModel.lr_path := ex_gp "" "" []; PipelineModel.lr_val := PipelineModel.TVInt 1 |} in
+  PipelineModel.w_fault (PipelineModel.cache_update_one ex_w0 r) = Some (PipelineModel.FPanic 2) /\
+  snd (gnmi_update1 (new_target "dev" (Cfg 0 true [])) 0 (rec_notif scalar_emb r)) = Err err_invalid_path.
+Proof. exact pipe_empty_index_differ. Qed.
+Print Assumptions Glue_pipe_empty_index_differ.
